@@ -81,6 +81,8 @@ type VC struct {
 	loopUnmodNext map[string]map[string]bool
 	defs      map[string]Term
 	inlineSeq int
+	noSafety  bool
+	preludeError string
 	faddrSeen map[string]Term
 	prop      string
 	axiomsUsed  []string
